@@ -2,6 +2,7 @@ import PharmpyModel.Core.Sexp
 import PharmpyModel.C08.FV
 import PharmpyModel.Generated.MflFeatures
 import PharmpyModel.C08.Ledger
+import PharmpyModel.C08.Mfl
 open Pharmpy Pharmpy.C08
 
 /-! Line-protocol driver for C08 (plumbing only). -/
@@ -176,6 +177,10 @@ def handle (req : Sexp) : Sexp :=
       let r := removePeripheral m a b
       .list [Sexp.ofNats r.params, Sexp.ofNats r.dead]
     | _, _, _ => bad
+  | .list [.atom "reqofkey", .atom cat, .atom mode, count] =>
+    match count.asNat? with
+    | some n => (match reqOfKey cat mode n with | some r => reqS r | none => .atom "none")
+    | none => bad
   | .list [.atom "mfl"] => .list (mflTable.map mflS)
   | _ => bad
 
